@@ -442,7 +442,34 @@ string run_replay(const string &text) {
 }
 } // namespace
 
+#ifdef VERIF_FUZZ
+#include <fuzzer/FuzzedDataProvider.h>
+
+extern "C" int LLVMFuzzerInitialize(int *, char ***) { p_libsys_init(); vl::fuzz_init(); std::string why; if (!self_check(why)) { fprintf(stderr, "HARNESS-ERROR: %s\n", why.c_str()); _exit(3); } return 0; }
+extern "C" int LLVMFuzzerTestOneInput(const uint8_t *data, size_t size) {
+  FuzzedDataProvider fdp(data, size);
+  Case c; c.algo = fdp.ConsumeIntegralInRange<int>(0, NALGO - 1);
+  int b = BLOCK[c.algo];
+  while (fdp.remaining_bytes() > 0 && c.ops.size() < 60) {
+    Op o; int k = fdp.ConsumeIntegralInRange<int>(0, 11);
+    if (k <= 6) { o.kind = 'U'; int m = fdp.ConsumeIntegralInRange<int>(0, 5); o.a = m == 0 ? (uint64_t)fdp.ConsumeIntegralInRange<int>(0, 3 * b + 2) : m == 1 ? (uint64_t)(b - 1) : m == 2 ? (uint64_t)b : m == 3 ? (uint64_t)(b + 1) : m == 4 ? (uint64_t)(2 * b) : (uint64_t)fdp.ConsumeIntegralInRange<int>(0, 5000); o.b = fdp.ConsumeIntegralInRange<int>(0, 20); }
+    else if (k == 7) { o.kind = 'u'; o.bytes = fdp.ConsumeRandomLengthString(200); }
+    else if (k == 8) o.kind = 's';
+    else if (k == 9) { o.kind = 'd'; o.a = (uint64_t)fdp.ConsumeIntegralInRange<int>(0, 70); }
+    else if (k == 10) o.kind = 'r';
+    else { o.kind = 'e'; o.a = (uint64_t)fdp.ConsumeIntegralInRange<int>(0, 1); }
+    c.ops.push_back(o);
+  }
+  std::string text = to_text(c);
+  vl::set_current_case("fuzz", text);
+  Outcome o = run_case(c);
+  vl::stats().record(text, o.nontrivial, o.fp);
+  if (!o.verdict.empty()) vl::fuzz_report("fuzz", text, "C11:" + o.klass + ": " + o.verdict, o.klass);
+  return 0;
+}
+#else
 int main(int argc, char **argv) {
   p_libsys_init();
   return vl::harness_main(argc, argv, run_generated, run_replay);
 }
+#endif
